@@ -41,6 +41,7 @@ class Checker:
         self.notes: List[str] = []
         self.rules_text: Dict[str, str] = {}
         self.analysis_errors: List[str] = []
+        self.host_fallbacks: Dict[str, str] = {}
 
     @property
     def cg(self):
@@ -78,8 +79,18 @@ class Checker:
         return cond
 
     def fn(self, qual):
-        f = self.repo.func(qual)
-        self.functions_analysed.add(qual)
+        f = self.repo.try_func(qual)
+        if f is None:
+            # a private helper of the reference tree that a change inlined into its caller(s) and removed:
+            # the statements the rule reasons about now live in the host
+            from .inline import load_inventory
+            hosts = [self.repo.try_func(h) for h in (load_inventory().get("callers") or {}).get(qual, [])]
+            hosts = [h for h in hosts if h is not None]
+            if not hosts:
+                f = self.repo.func(qual)  # raises AnalysisError
+            f = hosts[0]
+            self.host_fallbacks[qual] = f.qual
+        self.functions_analysed.add(f.qual)
         return f
 
     def count(self, rule):
